@@ -28,9 +28,12 @@ Dss    == {0, 2, 4}
 Big    == {"0", "1", "max"}      \* 0, 1, the largest value of the field's type
 
 \* a factor is <<name, set of alternative values>>; the base value comes first in BaseOf
+\* pos: where in the (pre-sized) file the record is stored - at its start, or so
+\* that it ends exactly on the last byte of the file
+Poss == {"start", "end"}
 EntryFactors == [bs |-> Sizes, ks |-> Sizes, vs |-> Sizes, flag |-> Flags, status |-> Stats, ds |-> Dss,
-                 ts |-> Big, ttl |-> Big, txid |-> Big]
-EntryBase    == [bs |-> 1, ks |-> 1, vs |-> 1, flag |-> 1, status |-> 1, ds |-> 2, ts |-> "1", ttl |-> "0", txid |-> "1"]
+                 ts |-> Big, ttl |-> Big, txid |-> Big, pos |-> Poss]
+EntryBase    == [bs |-> 1, ks |-> 1, vs |-> 1, flag |-> 1, status |-> 1, ds |-> 2, ts |-> "1", ttl |-> "0", txid |-> "1", pos |-> "start"]
 RootFactors  == [fid |-> Big, rootoff |-> Big, ss |-> Sizes, es |-> Sizes]
 RootBase     == [fid |-> "1", rootoff |-> "1", ss |-> 1, es |-> 1]
 MetaFactors  == [ss |-> Sizes, es |-> Sizes]
@@ -44,6 +47,7 @@ SizeCombos(base, szs) == {[f \in DOMAIN base |-> IF f \in DOMAIN s THEN s[f] ELS
 Templates(kind) ==
   CASE kind = "entry" -> (IF Pairs THEN Variants2(EntryBase, EntryFactors) ELSE Variants1(EntryBase, EntryFactors))
                           \cup SizeCombos(EntryBase, {"bs", "ks", "vs"})
+                          \cup SizeCombos([EntryBase EXCEPT !.pos = "end"], {"bs", "ks", "vs"})
     [] kind = "root"  -> (IF Pairs THEN Variants2(RootBase, RootFactors) ELSE Variants1(RootBase, RootFactors))
                           \cup SizeCombos(RootBase, {"ss", "es"})
     [] kind = "meta"  -> SizeCombos(MetaBase, {"ss", "es"})
